@@ -77,10 +77,53 @@ func (in *inst) unknownResults(st *State, sig *types.Signature, prefix string) [
 func (fv *FnVC) havocAll(st *State, why string) {
 	fv.note("havoc of all memory: " + why)
 	fv.epoch++
-	if fv.private != "" {
-		// memory owned by the private root is unreachable for the callee
-		priv := fv.private
-		region := func(l string) string { return not(eq("(root "+l+")", "(root "+priv+")")) }
+	if fv.private != "" || len(fv.localRoots) > 0 {
+		// memory owned by the private root, and local cells that never escape,
+		// are unreachable for the callee
+		var keep []string
+		if fv.private != "" {
+			keep = append(keep, "(root "+fv.private+")")
+		}
+		for _, r := range fv.localRoots {
+			keep = append(keep, "(root "+r+")")
+		}
+		region := func(l string) string {
+			var ds []string
+			for _, k := range keep {
+				ds = append(ds, not(eq("(root "+l+")", k)))
+			}
+			return and(ds...)
+		}
+		var keys []string
+		for k := range st.heaps {
+			keys = append(keys, k)
+		}
+		sort.Strings(keys)
+		allocNow := st.alloc
+		for _, k := range keys {
+			h := st.heaps[k]
+			sym := fv.decl(h.info.name+"v", fv.arrSort(h.info))
+			reg := region
+			if ni := fv.notImmutable(k, allocNow); ni != nil {
+				reg = func(l string) string { return and(region(l), ni(l)) }
+			}
+			hv := &havoc{sym: sym, parent: h, region: reg, done: map[string]bool{}}
+			st.heaps[k] = &Heap{term: sym, info: h.info, havocs: []*havoc{hv}}
+		}
+		if fv.privEpochs == nil {
+			fv.privEpochs = map[int]*privEpoch{}
+		}
+		pe := &privEpoch{prev: st.epoch, region: region, alloc: allocNow, tag: fv.curTag, localOnly: fv.private == "", roots: append([]string(nil), fv.localRoots...)}
+		fv.privEpochs[fv.epoch] = pe
+		for _, k := range keys {
+			if h := st.heaps[k]; len(h.havocs) == 1 {
+				h.havocs[0].relevant = pe.relevant(fv, k)
+			}
+		}
+	} else if len(fv.eng.immutables) > 0 {
+		// nothing private, but immutable fields of existing objects survive
+		allocNow := st.alloc
+		region := func(l string) string { return "true" }
 		var keys []string
 		for k := range st.heaps {
 			keys = append(keys, k)
@@ -88,20 +131,29 @@ func (fv *FnVC) havocAll(st *State, why string) {
 		sort.Strings(keys)
 		for _, k := range keys {
 			h := st.heaps[k]
-			sym := fv.decl(h.info.name+"v", fv.arrSort(h.info))
-			hv := &havoc{sym: sym, parent: h, region: region, done: map[string]bool{}}
-			st.heaps[k] = &Heap{term: sym, info: h.info, havocs: []*havoc{hv}}
+			if ni := fv.notImmutable(k, allocNow); ni != nil {
+				sym := fv.decl(h.info.name+"v", fv.arrSort(h.info))
+				hv := &havoc{sym: sym, parent: h, region: ni, done: map[string]bool{}}
+				st.heaps[k] = &Heap{term: sym, info: h.info, havocs: []*havoc{hv}}
+			} else {
+				delete(st.heaps, k)
+			}
 		}
 		if fv.privEpochs == nil {
 			fv.privEpochs = map[int]*privEpoch{}
 		}
-		fv.privEpochs[fv.epoch] = &privEpoch{prev: st.epoch, region: region}
+		fv.privEpochs[fv.epoch] = &privEpoch{prev: st.epoch, region: region, alloc: allocNow, onlyImmutable: true, tag: fv.curTag, localOnly: true}
 	} else {
 		for k := range st.heaps {
 			delete(st.heaps, k)
 		}
 	}
+	if fv.epochTag == nil {
+		fv.epochTag = map[int]int{}
+	}
+	fv.epochTag[fv.epoch] = fv.curTag
 	st.epoch = fv.epoch
+	st.dirty = "true"
 	a := fv.decl("alloc", "Int")
 	fv.assume("true", "(>= "+a+" "+st.alloc+")")
 	st.alloc = a
@@ -158,8 +210,8 @@ func (in *inst) static(n *vnode, st *State, f *ssa.Function, args []Val, binding
 	if f == in.fn || f == fv.top {
 		rec = true
 	}
-	if rec || in.depth >= maxInlineDepth {
-		fv.havocAll(st, "call to "+funcKey(f)+" (recursive or too deep to inline, no contract)")
+	if rec || in.depth >= maxInlineDepth || !smallEnough(f) {
+		fv.havocAll(st, "call to "+funcKey(f)+" (recursive, too deep or too large to inline; it has no contract)")
 		return resultVal(sig, in.unknownResults(st, sig, "rec"))
 	}
 	sub := &inst{fv: fv, fn: f, params: args, free: bindings, vals: map[ssa.Value]Val{}, depth: in.depth + 1,
@@ -321,7 +373,26 @@ func (in *inst) applyContract(n *vnode, st *State, ct *Contract, callee string, 
 	old := st.clone()
 	// frame
 	if ct.AssignsAny {
+		var regs map[string]*region
+		var pre map[string]*Heap
+		if len(ct.Except) > 0 {
+			// heaps named in "except" change only inside the listed location sets
+			regs = ce.regions(ct.Except)
+			pre = map[string]*Heap{}
+			for k, r := range regs {
+				pre[k] = fv.heapOf(st, k, r.sort)
+			}
+		}
 		fv.havocAll(st, "callee "+callee+" assigns *")
+		var keys []string
+		for k := range regs {
+			keys = append(keys, k)
+		}
+		sort.Strings(keys)
+		for _, k := range keys {
+			st.heaps[k] = pre[k]
+			fv.havocHeap(st, k, regs[k].sort, regs[k].pred, nil)
+		}
 	} else if len(ct.Assigns) > 0 {
 		regs := ce.regions(ct.Assigns)
 		var keys []string
@@ -450,6 +521,73 @@ func (c *cenv) regions(specs []string) map[string]*region {
 	in := &inst{fv: fv}
 	for _, s := range specs {
 		s = strings.TrimSpace(s)
+		// type-based frames: typeof(T) = every field of every object of struct type T;
+		// heap(T) = every location holding a value of type T; heapmap(M) = every map of type M
+		if strings.HasPrefix(s, "typeof(") && strings.HasSuffix(s, ")") {
+			t := c.typeOf(s[len("typeof(") : len(s)-1])
+			st, ok := types.Unalias(tOrNil(t)).Underlying().(*types.Struct)
+			if t == nil || !ok {
+				c.fail("assigns %s: struct type expected", s)
+				continue
+			}
+			tid := fmt.Sprint(fv.eng.tagOf(t))
+			for i := 0; i < st.NumFields(); i++ {
+				fi := i
+				in.forEachLeaf(st.Field(i).Type(), func(path []int, lt types.Type) {
+					z := fv.zeroVal(lt)
+					p := append([]int(nil), path...)
+					orRegion(regs, leafKey(lt), z.sortOf(), func(l string) string {
+						cur := l
+						var cs []string
+						for k := len(p) - 1; k >= 0; k-- {
+							cs = append(cs, "(isLField "+cur+")", eq("(fidx "+cur+")", fmt.Sprint(p[k])))
+							cur = "(fpar " + cur + ")"
+						}
+						cs = append(cs, "(isLField "+cur+")", eq("(fidx "+cur+")", fmt.Sprint(fi)), eq("(ltype (fpar "+cur+"))", tid))
+						return and(cs...)
+					})
+				})
+			}
+			continue
+		}
+		if strings.HasPrefix(s, "heap(") && strings.HasSuffix(s, ")") {
+			t := c.typeOf(s[len("heap(") : len(s)-1])
+			if t == nil {
+				c.fail("assigns %s: unknown type", s)
+				continue
+			}
+			in.forEachLeaf(t, func(path []int, lt types.Type) {
+				z := fv.zeroVal(lt)
+				orRegion(regs, leafKey(lt), z.sortOf(), func(l string) string { return "true" })
+			})
+			continue
+		}
+		if strings.HasPrefix(s, "none(") && strings.HasSuffix(s, ")") {
+			// none(T): no pre-existing location holding a T changes (only useful after "assigns * except")
+			t := c.typeOf(s[len("none(") : len(s)-1])
+			if t == nil {
+				c.fail("assigns %s: unknown type", s)
+				continue
+			}
+			in.forEachLeaf(t, func(path []int, lt types.Type) {
+				z := fv.zeroVal(lt)
+				orRegion(regs, leafKey(lt), z.sortOf(), func(l string) string { return "false" })
+			})
+			continue
+		}
+		if strings.HasPrefix(s, "heapmap(") && strings.HasSuffix(s, ")") {
+			t := c.typeOf(s[len("heapmap(") : len(s)-1])
+			if t == nil {
+				c.fail("assigns %s: unknown type", s)
+				continue
+			}
+			ms := fv.mapSorts(t)
+			all := func(l string) string { return "true" }
+			orRegion(regs, "Mdom:"+ms.key, ms.domSort(), all)
+			orRegion(regs, "Mval:"+ms.key, ms.valSort(), all)
+			orRegion(regs, "Mlen:"+ms.key, bvSort(64), all)
+			continue
+		}
 		all := false
 		if strings.HasSuffix(s, "[*]") {
 			all = true
@@ -753,11 +891,12 @@ func (in *inst) runDefers(n *vnode, st *State, x *ssa.RunDefers) {
 	fv := in.fv
 	for i := len(in.deferred) - 1; i >= 0; i-- {
 		d := in.deferred[i]
-		// the defer is pending iff its Defer instruction was executed on this path
-		pending := fv.def("pend", "Bool", and(st.reach, d.flag))
-		if !in.top && false {
+		// a defer registered in a block that cannot reach this one is never pending here
+		if in.top && d.node.tag != n.tag && !fv.anc[n.tag][d.node.tag] {
 			continue
 		}
+		// the defer is pending iff its Defer instruction was executed on this path
+		pending := fv.def("pend", "Bool", and(st.reach, d.flag))
 		cc := &d.call.Call
 		var f *ssa.Function
 		var bs []Val
@@ -796,6 +935,9 @@ type writeShape struct {
 	total  bool
 	elems  bool
 	fields map[int]bool
+	calleeTotal bool     // a callee's declared frame covers this heap: anything but non-escaping local cells
+	cells  []string      // local cells written directly (location terms)
+	fv     *FnVC
 }
 
 func (w *writeShape) pred(l string) string {
@@ -803,6 +945,16 @@ func (w *writeShape) pred(l string) string {
 		return "true"
 	}
 	var ds []string
+	if w.calleeTotal {
+		var ks []string
+		for _, r := range w.fv.localRoots {
+			ks = append(ks, not(eq("(root "+l+")", "(root "+r+")")))
+		}
+		ds = append(ds, and(ks...))
+	}
+	for _, c := range w.cells {
+		ds = append(ds, eq(l, c))
+	}
 	if w.elems {
 		ds = append(ds, "(isLElem "+l+")")
 	}
@@ -829,7 +981,7 @@ func (in *inst) loopWrites(l *loopInfo) (keys map[string]*writeShape, anything b
 	get := func(k, srt string) *writeShape {
 		w := keys[k]
 		if w == nil {
-			w = &writeShape{sort: srt, fields: map[int]bool{}}
+			w = &writeShape{sort: srt, fields: map[int]bool{}, fv: fv}
 			keys[k] = w
 		}
 		return w
@@ -847,6 +999,12 @@ func (in *inst) loopWrites(l *loopInfo) (keys map[string]*writeShape, anything b
 				w.fields[a.Field] = true
 			case *ssa.IndexAddr:
 				w.elems = true
+			case *ssa.Alloc:
+				if v, ok := in.vals[a]; ok {
+					w.cells = append(w.cells, v.T)
+				} else {
+					w.total = true
+				}
 			default:
 				w.total = true
 			}
@@ -867,8 +1025,15 @@ func (in *inst) loopWrites(l *loopInfo) (keys map[string]*writeShape, anything b
 		blocks = append(blocks, b)
 	}
 	sort.Slice(blocks, func(i, j int) bool { return blocks[i].Index < blocks[j].Index })
+	seen := map[*ssa.Function]bool{}
 	var visit func(f *ssa.Function, blocks []*ssa.BasicBlock, depth int)
 	visit = func(f *ssa.Function, blocks []*ssa.BasicBlock, depth int) {
+		if f != in.fn {
+			if seen[f] {
+				return
+			}
+			seen[f] = true
+		}
 		for _, b := range blocks {
 			for _, ins := range b.Instrs {
 				switch x := ins.(type) {
@@ -912,14 +1077,14 @@ func (in *inst) loopWrites(l *loopInfo) (keys map[string]*writeShape, anything b
 							} else if len(ct.Assigns) > 0 {
 								// heap keys of the callee's declared frame (evaluated on dummy arguments)
 								for k, srt := range in.assignsKeys(ct, fn) {
-									get(k, srt).total = true
+									get(k, srt).calleeTotal = true
 								}
 							}
 						} else if ct := fv.eng.externals[fn.String()]; ct != nil {
 							if ct.AssignsAny || len(ct.Assigns) > 0 {
 								anything = true
 							}
-						} else if fn.Blocks != nil && depth < maxInlineDepth {
+						} else if fn.Blocks != nil && depth < maxInlineDepth && smallEnough(fn) {
 							visit(fn, fn.Blocks, depth+1)
 						} else if fn.Blocks == nil {
 							for _, a := range cc.Args {
@@ -1062,7 +1227,7 @@ func (in *inst) loopRegion(key string, lp *loopInfo) func(string) string {
 			}
 			return fresh
 		}
-		if fv.frameAny {
+		if fv.frameAny && fr == nil {
 			return "true"
 		}
 		if fr != nil {
@@ -1273,7 +1438,14 @@ func (in *inst) backEdgeOrd(l *loopInfo, b *ssa.BasicBlock) int {
 // evaluated on unconstrained dummy arguments; only the heap keys are used.
 func (in *inst) assignsKeys(ct *Contract, fn *ssa.Function) map[string]string {
 	fv := in.fv
+	if fv.akCache == nil {
+		fv.akCache = map[*ssa.Function]map[string]string{}
+	}
+	if m, ok := fv.akCache[fn]; ok {
+		return m
+	}
 	out := map[string]string{}
+	fv.akCache[fn] = out
 	st := &State{reach: "false", heaps: map[string]*Heap{}, alloc: fv.allocEntry}
 	save := fv.curTag
 	fv.curTag = -1
@@ -1327,4 +1499,21 @@ func (in *inst) autoRangeInv(n *vnode, l *loopInfo, phiVals map[*ssa.Phi]Val) (s
 		return "", false
 	}
 	return and(parts...), true
+}
+
+func tOrNil(t types.Type) types.Type {
+	if t == nil {
+		return types.Typ[types.Invalid]
+	}
+	return t
+}
+
+// smallEnough: only small functions are inlined at call sites; larger ones
+// need a contract (callers are otherwise checked against "anything may happen").
+func smallEnough(f *ssa.Function) bool {
+	n := 0
+	for _, b := range f.Blocks {
+		n += len(b.Instrs)
+	}
+	return n <= 120
 }
